@@ -5,7 +5,7 @@ RULE = ("typed random expression trees (depth 1..5) over ALL operators incl. the
         "zero-extension of a Bool, 1-bit slices, sign extension of 1 bit, arrays with Bool index and/or Bool data (index widths 1..6), array "
         "equality/ite/store/const; symbol names from pools: simple, needing quoting (spaces, brackets, leading digit, '#b01', empty, tab/newline), "
         "multi-byte UTF-8 (fixed names and random ones by page x low byte, so that every low byte occurs above U+00FF), simple names that begin with a literal / "
-        "keyword / theory name, quoted names with spaces around keywords, SMT-LIB reserved words, theory symbols, unrepresentable ('|', '\\\\', control characters); 1/4 of the cases are commands "
+        "keyword / theory name, quoted names with spaces around keywords, names made of lexical delimiters (double quotes, ';', parentheses, '#', line breaks, tabs), SMT-LIB reserved words, theory symbols, unrepresentable ('|', '\\\\', control characters); 1/4 of the cases are commands "
         "(assert, declare-const incl. arrays, define-fun, check-sat-assuming with 0..3 assumptions, get-value, push/pop incl. 2^64-1, set-logic, "
         "set-option/set-info, exit, check-sat, get-unsat-assumptions, declare of a non-symbol); 2 random assignments per expression case "
         "(literal shape pool; arrays = default + up to 3 stores). distinct = distinct (expression|command, assignments); every case runs the "
